@@ -651,7 +651,9 @@ pub fn gen_string(rg: &mut Rg, cfg: &GenCfg) -> EnumSpec {
                 // the phf map is a `static`, its values must be Sync (a language rule, not strum's)
                 ty = FieldTy::ArcStr;
             }
-            v.fields = vec![FieldSpec { name: if v.kind == Kind::Named { Some("inner".into()) } else { None }, ty, default_with: false }];
+            // (a field-level default_with on the catch-all's named field is ignored: the field receives the input)
+            let field_dw = v.kind == Kind::Named && cfg.allow_default_with && ty.dw().is_some() && rg.chance(1, 4);
+            v.fields = vec![FieldSpec { name: if v.kind == Kind::Named { Some("inner".into()) } else { None }, ty, default_with: field_dw }];
             attrs.push(VAttr::Default);
             // both markers on one variant say the same thing twice for Display; the parser keeps its catch-all
             if cfg.allow_transparent && !has_const_into && rg.chance(1, 5) && e.derives("Display") && !e.derives("IntoStaticStr") && (!e.derives("AsRefStr") || matches!(ty, FieldTy::Str | FieldTy::BoxStr)) {
@@ -1070,9 +1072,21 @@ pub fn gen_iter(rg: &mut Rg, cfg: &IterCfg) -> EnumSpec {
     }
     // `default` is an EnumString notion: a catch-all variant is an ordinary variant for every other derive
     if !cfg.fieldless && rg.chance(1, 5) {
-        if let Some(v) = e.variants.iter_mut().find(|v| v.kind == Kind::Tuple && v.fields.len() == 1 && !v.disabled() && !matches!(v.fields[0].ty, FieldTy::Gen | FieldTy::Gen2 | FieldTy::Phantom | FieldTy::RefStr)) {
+        // (on a disabled variant too: `disabled` keeps it out of the iterator whatever else it carries)
+        let may_be_disabled = rg.chance(1, 2);
+        if let Some(v) = e.variants.iter_mut().find(|v| v.kind == Kind::Tuple && v.fields.len() == 1 && (may_be_disabled || !v.disabled()) && !v.is_default() && !matches!(v.fields[0].ty, FieldTy::Gen | FieldTy::Gen2 | FieldTy::Phantom | FieldTy::RefStr)) {
             v.fields[0].ty = FieldTy::Str;
-            v.groups.push(vec![VAttr::Default]);
+            if v.disabled() && may_be_disabled {
+                // same attribute list as `disabled`, in front of it or behind it
+                let at = v.groups.iter().position(|g| g.iter().any(|a| matches!(a, VAttr::Disabled))).unwrap();
+                if v.fields.len() % 2 == 1 && v.ident.len() % 2 == 0 {
+                    v.groups[at].insert(0, VAttr::Default);
+                } else {
+                    v.groups[at].push(VAttr::Default);
+                }
+            } else {
+                v.groups.push(vec![VAttr::Default]);
+            }
         }
     }
     add_noise(rg, &mut e);
@@ -1516,6 +1530,17 @@ pub fn gen_table(rg: &mut Rg, n_enabled: usize) -> EnumSpec {
         let r = if max < 250 { *rg.pick(&["u8", "u8", "i32", "u64"]) } else { *rg.pick(&["u16", "i32"]) };
         e.repr = Some(r.to_string());
         e.repr_int = Some(r.to_string());
+    }
+    // another derive on the same enum whose own attributes (`strum_discriminants(strum(disabled))`: disabled in
+    // the DISCRIMINANT enum only) are none of the table's business
+    if rg.chance(1, 6) {
+        e.derives.push("EnumDiscriminants".into());
+        e.disc_opts = Some(DiscOpts { derives: vec!["strum::EnumCount".into()], ..Default::default() });
+        let enabled: Vec<usize> = (0..e.variants.len()).filter(|&i| !e.variants[i].disabled()).collect();
+        if !enabled.is_empty() {
+            let at = *rg.pick(&enabled);
+            e.variants[at].disc_passthrough.push("strum(disabled)".to_string());
+        }
     }
     add_noise(rg, &mut e);
     irrelevant_enum_attrs(rg, &mut e, false, true);
